@@ -177,7 +177,39 @@ Definition r_complete (s : rstate) (id : nat) (ecanceled : bool) : option rstate
       else None
   end.
 
+(** SaveToStore: the jobs [rm] leave the runner's maps (retention, or their pipeline is not defined any more); they
+    are taken off the wait lists and their timers are stopped. Which jobs those are is decided by the retention
+    logic of the system model (Retention); the abstract machine allows any set. *)
+Definition r_remove (j : rjob) : rjob :=
+  RJobRec (r_pipe j) (r_created j) (r_start j) (r_completed j) (r_canceled j) (r_delay j) false true (r_gok j) (r_creq j) (r_live j) (r_snap j).
+Definition in_ids (i : nat) (l : list nat) : bool := existsb (Nat.eqb i) l.
+Definition r_save (s : rstate) (rm : list nat) : rstate :=
+  RState (rs_defs s) (imap (fun i j => if in_ids i rm then r_remove j else j) (rs_jobs s))
+         (map (fun pl => (fst pl, List.filter (fun i => negb (in_ids i rm)) (snd pl))) (rs_wait s)) (rs_shut s) (rs_now s).
+
+(** a new process: every job is terminal (not waiting, no scheduler), wait lists are empty. The job list is whatever
+    the store held; it only has to be consistent with the clock. *)
+Definition r_terminal (now : Z) (j : rjob) : bool :=
+  negb (r_is_running j) && negb (r_live j) && negb (r_is_waiting j) && negb (r_creq j) && (r_created j <=? now) && negb (r_timer j)
+  && match r_start j with Some t => (r_created j + Z.of_nat (r_delay j) <=? t) && (t <=? now) | None => true end.
+Definition r_restart (s : rstate) (js : list rjob) : option rstate :=
+  if forallb (r_terminal (rs_now s)) js then Some (RState (rs_defs s) js [] false (rs_now s)) else None.
+
+Definition r_set_canceled (j : rjob) : rjob :=
+  RJobRec (r_pipe j) (r_created j) (r_start j) (r_completed j) true (r_delay j) (r_timer j) (r_removed j) (r_gok j) (r_creq j) (r_live j) (r_snap j).
+(** first critical section of Shutdown *)
+Definition r_shutdown (s : rstate) : rstate :=
+  RState (rs_defs s) (imap (fun i j => if in_ids i (wl_get (rs_wait s) (r_pipe j)) then r_set_canceled j else j) (rs_jobs s)) [] true (rs_now s).
+
+(** forced shutdown: a cancel request for every job *)
+Definition r_cancel_all (s : rstate) : rstate :=
+  fold_left (fun s id => fst (r_cancel s id)) (seq 0 (length (rs_jobs s))) s.
+
 Inductive revent :=
+  | RvSave (rm : list nat)
+  | RvRestart (js : list rjob)
+  | RvShutdown
+  | RvCancelAll
   | RvSchedule (p : name) (gok : bool) (sn : nat * vkind * nat * tasks)
   | RvCancel (id : nat)
   | RvTick (d : nat)
@@ -187,6 +219,10 @@ Inductive revent :=
 
 Definition rstep (s : rstate) (e : revent) : option (rstate * result) :=
   match e with
+  | RvSave rm => Some (r_save s rm, RNone)
+  | RvRestart js => (fun s' => (s', RNone)) <$> r_restart s js
+  | RvShutdown => Some (r_shutdown s, RNone)
+  | RvCancelAll => Some (r_cancel_all s, RNone)
   | RvSchedule p gok sn => Some (r_schedule s p gok sn)
   | RvCancel id => Some (r_cancel s id)
   | RvTick d => Some (RState (rs_defs s) (rs_jobs s) (rs_wait s) (rs_shut s) (rs_now s + Z.of_nat d), RNone)
@@ -199,6 +235,7 @@ Definition rinit (ds : defs) : rstate := RState ds [] [] false 0.
 
 Inductive rreach : rstate → Prop :=
   | rreach_init ds : rreach (rinit ds)
+  | rreach_init_from ds js : forallb (r_terminal 0) js = true → rreach (RState ds js [] false 0)
   | rreach_step s e s' r : rreach s → rstep s e = Some (s', r) → rreach s'.
 
 (** ** Abstraction of a system state *)
@@ -210,6 +247,11 @@ Definition abs_job (j : job) : rjob :=
 Definition abs (s : state) : rstate :=
   RState (st_defs s) (map abs_job (st_jobs s)) (st_wait s) (st_shut s) (st_now s).
 
+(** a stored job is consistent with the clock: created, then started, not in the future *)
+Definition pjob_ok (now : Z) (pj : pjob) : Prop :=
+  (pj_created pj <= now)%Z ∧ ∀ t, pj_start pj = Some t → (pj_created pj <= t)%Z ∧ (t <= now)%Z.
+
 Inductive reach : state → Prop :=
   | reach_init ds : reach (init ds)
+  | reach_init_from ds pjs : Forall (pjob_ok 0) pjs → reach (init_from ds pjs)
   | reach_step s e s' r : reach s → step s e = Some (s', r) → reach s'.
